@@ -9,7 +9,7 @@ ASSUMPTIONS = [
 
 
 def run(ctx):
-    ctx, tb, dist = R.run_rt(ctx, "C07", 600, 12000, with_edits=True)
+    ctx, tb, dist = R.run_rt(ctx, "C07", 600, 8000, with_edits=True)
     return ctx.finish(tb, ASSUMPTIONS, "generated problems x programs of valid edits, edited write compared card by card and token by token with the unedited write; distinct = distinct (text, program)", extra={"input_distribution": dist})
 
 
